@@ -123,6 +123,32 @@ def run_case(case, rng):
         t = StateActionTable.from_state_action_lists(state_list=domains[0], action_list=domains[1], data=data.copy())
     else:
         t = TabularPolicy.from_state_action_lists(state_list=domains[0], action_list=domains[1], data=data.copy())
+    if cls_name in ("StateTable", "StateActionTable", "TabularPolicy") and rng.random() < 0.3:
+        # the dictionary constructors: states in the dictionary's own order; the action order is whatever the table says
+        # it is (it is read back and the reference is permuted to it)
+        def via_dict():
+            if cls_name == "StateTable":
+                return StateTable.from_dict({k: float(data[i]) for i, k in enumerate(domains[0])})
+            nested = {k: {a: float(data[i, j]) for j, a in enumerate(domains[1])} for i, k in enumerate(domains[0])}
+            return (StateActionTable if cls_name == "StateActionTable" else TabularPolicy).from_dict(nested, default_value=0.0)
+        t2 = case.call(f"{cls_name}.from_dict", via_dict, facts=dict(cls=cls_name))
+        if t2 is not case.FAIL:
+            ok_dom = list(t2.table_index.field_domains[0]) == list(domains[0])
+            if cls_name != "StateTable":
+                act = list(t2.table_index.field_domains[1])
+                perm = []
+                for a in act:
+                    hit = [j for j, b in enumerate(domains[1]) if b == a and type(b) is type(a) and j not in perm]
+                    perm.append(hit[0] if hit else None)
+                ok_dom = ok_dom and len(act) == len(domains[1]) and None not in perm
+                if ok_dom:
+                    data = data[:, perm]
+                    domains[1] = act
+            case.count("tables_built_from_dicts")
+            case.check(ok_dom, "from_dict:domains-differ-from-the-dictionary's-keys",
+                       lambda: f"{[list(d) for d in t2.table_index.field_domains]!r} vs {domains!r}", cls=cls_name)
+            if ok_dom:
+                t = t2
     mdp_table = cls_name in ("StateTable", "StateActionTable", "TabularPolicy")
     collide = any(_in(k, domains[0]) for d in domains[1:] for k in d) or \
         any(isinstance(k, tuple) and len(k) == nf and all(_in(c, dom) for c, dom in zip(k, domains)) for k in domains[0])
